@@ -255,6 +255,85 @@ def run(tier):
                     if k != "_done":
                         counters["syn.%s.%s" % (scope, k)] = n
                 samples.append({"kind": "synthetic", "scope": scope, "zone": d["zones"][0]["name"], "era0": d["zones"][0]["eras"][0]})
+    # ---------------------------------------------------------------- A2: the same value classes given as TEXT to the whole compiler
+    #   (extractor + transformer + generator): signs, zero hour fields ("-0:30"), bare hours ("2"), seconds fields ("0:30:00")
+    def hm(m, style):
+        sign = "-" if m < 0 else ""
+        a_ = abs(m)
+        if style == 1 and a_ % 60 == 0:
+            return "%s%d" % (sign, a_ // 60)
+        if style == 2:
+            return "%s%d:%02d:00" % (sign, a_ // 60, a_ % 60)
+        return "%s%d:%02d" % (sign, a_ // 60, a_ % 60)
+    saves = list(range(-60, 166, 15))
+    ats = [0, 1, 14, 15, 16, 59, 60, 61, 119, 120, 121, 600, 1439, 1440, 1441, 1499, 1500]
+    for scope, ns in (("extended", "txtdbx"), ("basic", "txtdb")):
+        stdoffs = (list(range(-59, 60)) + [-720, -719, -601, -271, -44, 330, 345, 525, 765, 839, 840]) if scope == "extended" else \
+                  (list(range(-720, 841, 15)))
+        want_z, want_p, lines = {}, {}, []
+        for k, off in enumerate(stdoffs):
+            sv, at, fx = saves[k % len(saves)], ats[k % len(ats)], saves[(k * 7 + 3) % len(saves)]
+            if scope == "basic":
+                at -= at % 15
+            suf = "wsu"[k % 3]
+            pol = "Txt%d" % k
+            if sv == 0:
+                sv = 60
+            lines.append("Rule %s 1990 max - Mar Sun>=8 %s%s %s D" % (pol, hm(at, k % 3), "" if suf == "w" else suf, hm(sv, (k + 1) % 3)))
+            lines.append("Rule %s 1990 max - Oct Sun>=8 2:00 0 S" % pol)
+            want_p[pol] = (3, at, suf, sv)
+            zn = "Txt/Z%d" % k
+            if scope == "extended":
+                lines.append("Zone %s %s %s T%%sT 2020 Jun 1 %s%s" % (zn, hm(off, k % 3), pol, hm(ats[(k + 5) % len(ats)], (k + 2) % 3), "" if suf == "w" else suf))
+                lines.append("\t\t\t%s %s TXT" % (hm(off, (k + 1) % 3), hm(fx, 2 * (k % 2)) if fx else "-"))     # RULES column: never bare hours (read as a policy name)
+                want_z[zn] = [(off, None, ats[(k + 5) % len(ats)], suf), (off, fx, 0, "w")]
+            else:
+                lines.append("Zone %s %s %s T%%sT 2020" % (zn, hm(off, k % 3), pol))       # basic scope: year-only UNTIL, no fixed SAVE in RULES
+                lines.append("\t\t\t%s - TXT" % hm(off, (k + 1) % 3))
+                want_z[zn] = [(off, None, 0, "w"), (off, 0, 0, "w")]
+        try:
+            tdir = tzpipe.write_input_dir("\n".join(lines) + "\n", work / ("in-text-" + scope))
+            tc = tzpipe.compile_source(tdir, scope, 2000, 2050)
+            tgen = work / ("txt-" + scope)
+            tzpipe.generate_arduino(tc, tgen, ns)
+            objs = vlib.build_gen_objects([tgen / f for f in ("zone_infos.cpp", "zone_policies.cpp", "zone_registry.cpp")], "sanrec",
+                                          includes=[tgen], outdir=work / ("obj-txt-" + scope))
+            defs = ["VERIF_GEN_REGISTRY_H=\"%s\"" % (tgen / "zone_registry.h"), "VERIF_EXT_NS=%s" % ns] if scope == "extended" else \
+                   ["VERIF_GEN_REGISTRY_H2=\"%s\"" % (tgen / "zone_registry.h"), "VERIF_BASIC_NS=%s" % ns]
+            texe = build(VERIF / "native" / "codec.cpp", "sanrec", defines=defs, extra_objects=objs, name="codec_txt_" + scope)
+        except tzpipe.CompilerDied as e:
+            v.violation("c12:compiler-raises-on-text-values", "the compiler raised on admissible values given as text", {"scope": scope, "error": repr(e.exc)[:400]})
+            continue
+        except vlib.BuildError as e:
+            v.violation("c12:generated-code-does-not-compile", "tables generated from admissible text values do not compile", {"scope": scope, "error": str(e)[-800:]})
+            continue
+        programs += 1
+        rt = run_shards(texe, [["--db", scope]], san="rec", timeout=900)
+        v.absorb(rt, "codec(text)")
+        for d in rt.infos:
+            if d["kind"] != scope:
+                continue
+            pols = {p_["id"]: p_ for p_ in d["policies"]}
+            zmap = {z["name"]: z for z in d["zones"]}
+            noted = set(tc.tzdb.get("notable_zones", {})) | set(tc.tzdb.get("notable_policies", {}))
+            for zn, eras in want_z.items():
+                z = zmap.get(zn)
+                pol = "Txt" + zn[len("Txt/Z"):]
+                if z is None or zn in noted or pol in noted:
+                    counters["text.%s.not_compared" % scope] = counters.get("text.%s.not_compared" % scope, 0) + 1
+                    continue
+                counters["text.%s.zones" % scope] = counters.get("text.%s.zones" % scope, 0) + 1
+                got = [(e["offsetMinutes"], None if e["policy"] >= 0 else e["deltaMinutes"], e["untilTimeMinutes"], e["untilTimeSuffix"]) for e in z["eras"]]
+                if got != [tuple(x) for x in eras]:
+                    v.violation("c12:text-value-decodes-differently", "a value written in a Zone line is read back differently from the generated table",
+                                {"scope": scope, "zone": zn, "decoded (stdoff, fixed save, until time, suffix)": got, "source": eras,
+                                 "lines": [l for l in lines if zn + " " in l or l.startswith("\t")][:1]})
+                    continue
+                pid = z["eras"][0]["policy"]
+                rr = {(r_["inMonth"], r_["atTimeMinutes"], r_["atTimeSuffix"], r_["deltaMinutes"]) for r_ in pols[pid]["rules"]} if pid >= 0 else set()
+                if want_p[pol] not in rr:
+                    v.violation("c12:text-value-decodes-differently", "a value written in a Rule line is read back differently from the generated table",
+                                {"scope": scope, "policy": pol, "decoded (month, at, suffix, save)": sorted(rr), "source": want_p[pol]})
     # ---------------------------------------------------------------- B: shipped tables == generator output
     for db, scope, ns in (("zonedbx", "extended", "regenx"), ("zonedb", "basic", "regen")):
         zones, rules, links = zicoracle.reconstruct_source(REPO / "src" / "ace_time" / db)
@@ -309,18 +388,21 @@ def run(tier):
                             {"zone": z["name"], "shipped": z["transitionBufSize"], "estimated": est.get(z["name"])})
         samples.append({"kind": "shipped", "scope": scope, "zone": d["zones"][5]["name"], "era0": d["zones"][5]["eras"][0]})
     need = ["syn.extended.eras", "syn.extended.rules", "syn.basic.eras", "shipped.extended.eras", "shipped.basic.eras"]
-    if any(counters.get(k, 0) < 250 for k in need):
+    if any(counters.get(k, 0) < 250 for k in need) or counters.get("text.extended.zones", 0) < 100 or counters.get("text.basic.zones", 0) < 30:
         v.inconclusive_because("deciding counters too low: %r" % counters)
     v.coverage.update({
         "programs": programs,
         "disagreements_checked": len(v.violations),
-        "evaluations": sum(n for k, n in counters.items() if k.endswith((".eras", ".rules"))),
+        "evaluations": sum(n for k, n in counters.items() if k.endswith((".eras", ".rules", ".zones"))),
         "distinct_nontrivial": sum(n for k, n in counters.items() if k.endswith("distinct_field_values")),
         "rule": "(A) the real ArduinoGenerator is handed synthetic raw eras/rules covering AT/UNTIL 0:00..25:00 every minute x {w,s,u}, "
                 "STDOFF -12:00..+14:00 every minute (basic: every 15 min), SAVE -1:00..+2:45 in 15-min steps on rules and fixed-RULES "
                 "eras, FROM/TO 1872..2127 + min + max, UNTIL years 1874..2126 + max, months, days, all ON (weekday, day) pairs, single "
                 "and up to 31 multi-character letters per policy; the generated tables are compiled and every field is read back "
                 "through ZoneInfo/ZoneEra/ZonePolicy/ZoneRule brokers (codec driver, ASan+UBSan) and compared with the value given. "
+                "(A2) the same value classes written as TEXT in Zone/Rule lines (signs, zero hour fields such as -0:30, bare hours, "
+                "seconds fields) go through the whole compiler (extractor, transformer, generator) in both scopes and are read back "
+                "the same way. "
                 "(B) tzcompiler.py (subprocess, recorded flags) is run on the lines recorded beside the shipped zonedb/zonedbx tables: "
                 "text comparison of the code (all comments stripped) and field-by-field broker comparison of the "
                 "shipped tables with the transformer's output; transitionBufSize vs the estimator. distinct = distinct (field, value) "
